@@ -18,9 +18,11 @@ func c14CheckOpen(enc []byte, localAS uint32, holdSec uint16, id uint32, caps []
 	// representability
 	capsTotal := 6
 	rep := true
+	tooLong := false // a kept capability whose value does not fit its length octet: no OPEN can carry it byte-exact
 	for _, c := range caps {
 		kept := c.Code != CAP_FOUR_OCTET_AS
 		rep = verifAnd(rep, verifOr(!kept, len(c.Value) <= 255))
+		tooLong = verifOr(tooLong, verifAnd(kept, len(c.Value) > 255))
 		capsTotal = verifIteInt(kept, capsTotal+2+len(c.Value), capsTotal)
 	}
 	rep = verifAnd(rep, capsTotal <= 253)
@@ -30,6 +32,8 @@ func c14CheckOpen(enc []byte, localAS uint32, holdSec uint16, id uint32, caps []
 			verifCover("unrepresentable-refused")
 			return
 		}
+		// every emitted OPEN carries exactly the returned capabilities: impossible for a value > 255 bytes
+		verifAssert("capability-value-over-255-bytes-never-emitted", !tooLong)
 		verifAssume(len(enc) >= 19)
 		ok, _ := c15OpenWellFormed(enc[19:], 4, 8)
 		verifAssert("unrepresentable-capabilities-never-malformed-open", ok)
